@@ -144,7 +144,8 @@ structure Cfg where
 
 /-- Calls that cross the boundary of the block service, in program order. -/
 inductive Ev where
-  | put (b : Blk)               -- blockstore.Put(b) / one element of blockstore.PutMany
+  | put (b : Blk)               -- blockstore.Put(b) / one element of blockstore.PutMany (the write succeeded)
+  | putFail (b : Blk)           -- the same call, but the blockstore returned an error (nothing was written)
   | reqOne (c : Cid)            -- fetcher.GetBlock(c)
   | reqMany (cs : List Cid)     -- fetcher.GetBlocks(cs)
   | notify (bs : List Blk)      -- exchange.NotifyNewBlocks(bs...)
@@ -159,13 +160,19 @@ inductive Res where
   | exch          -- error returned by the exchange
   | notifyErr     -- error returned by NotifyNewBlocks
   | mismatch      -- (fixed code) the exchange answered with a different CID
+  | storeErr      -- error returned by blockstore.Put / PutMany
   deriving DecidableEq, Repr
 
+/-! The blockstore may FAIL a write: `pf : Option Nat` is the number of write calls (Put / PutMany) of
+this API call that succeed before one returns an error (`none` = no failure). Every function below stops at
+the first failed write, so one number describes every failure pattern visible within one call. -/
+
 /-- AddBlock. `NotifyNewBlocks` errors are logged and ignored. -/
-def addBlock (cfg : Cfg) (st : Store) (o : Blk) : Store × Res × List Ev :=
+def addBlock (cfg : Cfg) (st : Store) (o : Blk) (pf : Option Nat := none) : Store × Res × List Ev :=
   match validate cfg.al o.1.code o.1.len with
   | .ok =>
     if cfg.checkFirst && st.has o.1.mh then (st, .ok, [])
+    else if pf == some 0 then (st, .storeErr, [.putFail o])
     else
       (st.put o.1.mh o.2, .ok, [.put o] ++ (if cfg.hasEx then [.notify [o]] else []))
   | e => (st, .verr e, [])
@@ -178,17 +185,19 @@ def firstErr (al : Allowlist) : List Blk → Option VErr
     | .ok => firstErr al r
     | e => some e
 
-def addBlocks (cfg : Cfg) (st : Store) (bs : List Blk) : Store × Res × List Ev :=
+def addBlocks (cfg : Cfg) (st : Store) (bs : List Blk) (pf : Option Nat := none) : Store × Res × List Ev :=
   match firstErr cfg.al bs with
   | some e => (st, .verr e, [])
   | none =>
     let toput := if cfg.checkFirst then bs.filter (fun b => !st.has b.1.mh) else bs
     if toput.isEmpty then (st, .ok, [])
+    else if pf == some 0 then (st, .storeErr, toput.map .putFail)
     else
       (st.putMany toput, .ok, toput.map .put ++ (if cfg.hasEx then [.notify toput] else []))
 
 /-- getBlock. `ans`: what `fetch.GetBlock` returns (`none` = error); `nOk`: whether NotifyNewBlocks succeeds. -/
-def getBlock (cfg : Cfg) (st : Store) (c : Cid) (ans : Option Blk) (nOk : Bool) : Store × Res × List Ev :=
+def getBlock (cfg : Cfg) (st : Store) (c : Cid) (ans : Option Blk) (nOk : Bool) (pf : Option Nat := none) :
+    Store × Res × List Ev :=
   match validate cfg.al c.code c.len with
   | .ok =>
     match st.get c.mh with
@@ -200,6 +209,7 @@ def getBlock (cfg : Cfg) (st : Store) (c : Cid) (ans : Option Blk) (nOk : Bool) 
         | none => (st, .exch, [.reqOne c])
         | some blk =>
           if cfg.fixed && blk.1 != c then (st, .mismatch, [.reqOne c])
+          else if pf == some 0 then (st, .storeErr, [.reqOne c, .putFail blk])   -- `return nil, err`: nothing handed out
           else
             let st' := st.put blk.1.mh blk.2
             if nOk then (st', .blk blk, [.reqOne c, .put blk, .notify [blk], .emit blk])
@@ -229,23 +239,27 @@ def splitLocal (st : Store) : List Cid → List Blk × List Cid
     | none => (hs, c :: ms)
 
 /-- the receive loop of getBlocks over the blocks the exchange channel yields.
-`nf`: number of NotifyNewBlocks calls that succeed before one fails (`none` = all succeed). -/
-def fetchLoop (fixed : Bool) (misses : List Cid) : Store → Option Nat → List Blk → Store × List Ev
-  | st, _, [] => (st, [])
-  | st, nf, b :: r =>
-    if fixed && !misses.contains b.1 then fetchLoop fixed misses st nf r   -- dropped
+`nf`: number of NotifyNewBlocks calls that succeed before one fails (`none` = all succeed); `pf`: the same for
+blockstore.Put. -/
+def fetchLoop (fixed : Bool) (misses : List Cid) : Store → Option Nat → Option Nat → List Blk → Store × List Ev
+  | st, _, _, [] => (st, [])
+  | st, nf, pf, b :: r =>
+    if fixed && !misses.contains b.1 then fetchLoop fixed misses st nf pf r   -- dropped
     else
-      let st' := st.put b.1.mh b.2
-      match nf with
-      | some 0 => (st', [.put b, .notify [b]])
+      match pf with
+      | some 0 => (st, [.putFail b])     -- "could not write blocks from the network to the blockstore": return
       | _ =>
-        let (st'', evs) := fetchLoop fixed misses st' (nf.map (· - 1)) r
-        (st'', [.put b, .notify [b], .emit b] ++ evs)
+        let st' := st.put b.1.mh b.2
+        match nf with
+        | some 0 => (st', [.put b, .notify [b]])
+        | _ =>
+          let (st'', evs) := fetchLoop fixed misses st' (nf.map (· - 1)) (pf.map (· - 1)) r
+          (st'', [.put b, .notify [b], .emit b] ++ evs)
 
 /-- getBlocks. `ans`: what `fetch.GetBlocks` returns: `none` = error, `some bs` = the blocks sent on the
 channel before it is closed. -/
-def getBlocks (cfg : Cfg) (st : Store) (ks : List Cid) (ans : Option (List Blk)) (nf : Option Nat) :
-    Store × List Ev :=
+def getBlocks (cfg : Cfg) (st : Store) (ks : List Cid) (ans : Option (List Blk)) (nf : Option Nat)
+    (pf : Option Nat := none) : Store × List Ev :=
   let ks := filterKeys cfg.al ks
   let (hits, misses) := splitLocal st ks
   let evs := hits.map .emit
@@ -254,7 +268,7 @@ def getBlocks (cfg : Cfg) (st : Store) (ks : List Cid) (ans : Option (List Blk))
     match ans with
     | none => (st, evs ++ [.reqMany misses])
     | some bs =>
-      let (st', evs') := fetchLoop cfg.fixed misses st nf bs
+      let (st', evs') := fetchLoop cfg.fixed misses st nf pf bs
       (st', evs ++ [.reqMany misses] ++ evs')
 
 def deleteBlock (st : Store) (c : Cid) : Store := st.del c.mh
@@ -278,19 +292,19 @@ namespace C04
 /-! ## request sequences -/
 
 /-- One call of the block service API together with the (adversarially chosen) behaviour of the
-exchange during that call. -/
+exchange and of the blockstore (write failures) during that call. -/
 inductive Op where
-  | add (b : Blk)
-  | addMany (bs : List Blk)
-  | get (c : Cid) (ans : Option Blk) (nOk : Bool)
-  | getMany (ks : List Cid) (ans : Option (List Blk)) (nf : Option Nat)
+  | add (b : Blk) (pf : Option Nat)
+  | addMany (bs : List Blk) (pf : Option Nat)
+  | get (c : Cid) (ans : Option Blk) (nOk : Bool) (pf : Option Nat)
+  | getMany (ks : List Cid) (ans : Option (List Blk)) (nf : Option Nat) (pf : Option Nat)
   | del (c : Cid)
 
 def stepOp (cfg : Cfg) (st : Store) : Op → Store × List Ev
-  | .add b => let r := addBlock cfg st b; (r.1, r.2.2)
-  | .addMany bs => let r := addBlocks cfg st bs; (r.1, r.2.2)
-  | .get c ans nOk => let r := getBlock cfg st c ans nOk; (r.1, r.2.2)
-  | .getMany ks ans nf => getBlocks cfg st ks ans nf
+  | .add b pf => let r := addBlock cfg st b pf; (r.1, r.2.2)
+  | .addMany bs pf => let r := addBlocks cfg st bs pf; (r.1, r.2.2)
+  | .get c ans nOk pf => let r := getBlock cfg st c ans nOk pf; (r.1, r.2.2)
+  | .getMany ks ans nf pf => getBlocks cfg st ks ans nf pf
   | .del c => (deleteBlock st c, [])
 
 /-- a whole history: final store and the concatenated trace -/
@@ -304,6 +318,7 @@ def run (cfg : Cfg) : Store → List Op → Store × List Ev
 /-- every CID carried by an event passes the validator -/
 def evOk (al : Allowlist) : Ev → Bool
   | .put b => valid al b.1
+  | .putFail b => valid al b.1
   | .reqOne c => valid al c
   | .reqMany cs => cs.all (valid al)
   | .notify bs => bs.all (fun b => valid al b.1)
